@@ -29,7 +29,11 @@ type visits map[*ast.FuncType][]bool
 
 func (v visits) visited(t *ast.FuncType, at int) bool {
 	if n, ok := v[t]; ok {
-		return n[at]
+		if n[at] {
+			return true
+		}
+		n[at] = true
+		return false
 	}
 
 	n := 0
